@@ -71,17 +71,24 @@ def column(draw, nrows, idx):
 @st.composite
 def frame_case(draw, max_rows=300):
     nrows = draw(st.one_of(st.integers(2, 40), st.integers(41, max_rows)))
-    ncols = draw(st.integers(2, 6))
+    style = draw(st.sampled_from(['plain'] * 6 + ['interaction', 'labelish']))
+    ncols = draw(st.integers(2, 6)) if style != 'interaction' else draw(st.integers(5, 6))
     cols = [draw(column(nrows, i)) for i in range(ncols)]
     case = {'nrows': nrows, 'cols': cols, 'label_pos': draw(st.integers(0, ncols - 1)),
             'pairwise': draw(st.booleans()), 'heuristic': draw(st.sampled_from(HEURISTICS)),
             # the batch enters either at the rank-graph function or one level up, as the raw rows of a mini-batch
             'entry': draw(st.sampled_from(['mixed_rank_graph', 'mixed_rank_graph', 'compute_batch_ranking']))}
-    if draw(st.integers(0, 3)) == 0:
+    if style == 'interaction':
         # column names as the tool itself builds them for interaction features ("a AND b"): name-based bookkeeping must not
-        # confuse the pairs ('a AND b', 'c') and ('a', 'b AND c')
-        pool = INTERACTION_NAMES if draw(st.booleans()) else LABELISH_NAMES
-        case['names'] = draw(st.permutations(pool))[:ncols]
+        # confuse the pairs ('a AND b', 'c') and ('a', 'b AND c'); the four names are always present, the label sits elsewhere
+        quartet = ['a AND b', 'c', 'a', 'b AND c']
+        others = draw(st.permutations([n for n in INTERACTION_NAMES if n not in quartet]))[:ncols - 4]
+        names = draw(st.permutations(quartet + list(others)))
+        case['names'] = list(names)
+        case['label_pos'] = names.index(draw(st.sampled_from(list(others))))
+        case['pairwise'] = draw(st.sampled_from([True, True, False]))
+    elif style == 'labelish':
+        case['names'] = draw(st.permutations(LABELISH_NAMES))[:ncols]
         case['pairwise'] = draw(st.sampled_from([True, True, False]))
     return case
 
